@@ -315,6 +315,32 @@ def analyse_structs(ses, rep, fs, sigs):
                         sets.setdefault(pn, a)
                 else:
                     rep.extra.setdefault("unknown_constructors", []).append(f"{rt}::new in {f.name}")
+                # a node built afresh with T::new: every child slot the builder chain does NOT set keeps new()'s default (absent / empty),
+                # i.e. the input's child is dropped - allowed only where the input's accessor was asked and says there is none
+                if params and len(params) == len(base[1]):
+                    for (ty_, slot_), wty in sorted(sigs.get("__withty__", {}).items()):
+                        if ty_ != rt or slot_ in sets or re.search(r"TokenReference|ContainedSpan", wty):
+                            continue
+                        field_ = sigs.get("__set__", {}).get((rt, slot_), slot_)
+                        if field_ in sets or any(sigs.get("__set__", {}).get((rt, s2), s2) == field_ for s2 in sets):
+                            continue
+                        getters_ = [slot_] + sigs.get("__get__", {}).get((rt, field_), [])
+                        read = [acc[g] for g in getters_ if g in acc]
+                        if read and wty.startswith("Option<"):
+                            ds = [ex.discr(o.state, x) for x in read if isinstance(x, (Lazy, Agg))]
+                            bad = z3.BoolVal(True) if not ds else z3.And(*[d_ != z3.BitVecVal(0, 64) for d_ in ds])
+                        elif read:
+                            tests = [t for t in o.trace if t[0] == "havoc" and re.search(r"(^|::)is_(block_)?empty$", t[1]) and isinstance(t[3], Sym)
+                                     and any(isinstance(x, Lazy) and x.oid in P.of(t[4][0] if len(t) > 4 else t[2][0]) for x in read)]
+                            bad = z3.BoolVal(True) if not tests else z3.Not(tests[0][3].t)
+                        else:
+                            bad = z3.BoolVal(True)
+                        n_slots += 1
+                        r, m = ses.obligation(f"{oid0}/{slot_}/not-set-on-a-fresh-node", list(o.pc), bad,
+                                              f"{rt}::new(..) without with_{slot_}: the input's `{slot_}` is absent on this path")
+                        if r == "sat":
+                            flagged.append((f"{oid0}/{slot_}", f"{f.name} rebuilds the {rt} with {rt}::new and never sets `{slot_}`: the input's `{slot_}` is dropped", "child",
+                                            {"function": f.name, "type": rt, "slot": slot_}))
             for slot, val in sorted(sets.items()):
                 n_slots += 1
                 val = deref_val(ex, o.state, val)
@@ -716,6 +742,8 @@ def full_moon_signatures():
                 sigs[(ty, "new")] = ps
             for m3 in re.finditer(r"pub fn with_([a-z_0-9]+)\(\s*self,\s*(?:r#)?[a-z_0-9]+:\s*Option<", body):
                 sigs["__optional__"].add((ty, m3.group(1)))
+            for m3 in re.finditer(r"pub fn with_([a-z_0-9]+)\(\s*self,\s*(?:r#)?[a-z_0-9]+:\s*([^)]*?),?\s*\)\s*->\s*Self", body):
+                sigs.setdefault("__withty__", {})[(ty, m3.group(1))] = " ".join(m3.group(2).split())
             # which struct field a builder sets / an accessor reads
             for m3 in re.finditer(r"pub fn with_([a-z_0-9]+)\(\s*self,[^{]*?\)\s*->\s*Self\s*\{(.*?)\n    \}", body, re.S):
                 m4 = re.search(r"Self\s*\{\s*(?:r#)?([a-z_0-9]+)", m3.group(2))
@@ -802,8 +830,13 @@ def semantic_battery(fs="full", only_kinds=None):
     binp = common.native_build(fs)
     fails = []
     for name, syn, src in luacorpus.programs(fs) + [("extra/" + k, s_, v) for k, (s_, v) in EXTRA.items()]:
-        for cfg in luacorpus.CONFIGS:
-            if "--sort-requires" in cfg or "--range-start" in " ".join(cfg) or "--range-end" in " ".join(cfg):
+        n_ = len(src.encode())
+        # range formatting rebuilds every statement that is not wholly inside the range through the block-only visitors
+        # (stmt_block::*, format_last_stmt_block): the meaning must survive those as well
+        ranged = [["--range-start", str(n_ // 4), "--range-end", str(n_ // 2)], ["--range-end", str(n_ // 3)], ["--range-start", str(n_ // 2)],
+                  ["--range-start", str(max(n_ - 8, 0)), "--range-end", str(max(n_ - 4, 0))]]
+        for cfg in luacorpus.CONFIGS + ranged:
+            if "--sort-requires" in cfg:
                 continue
             fl = (["--syntax", syn] if fs == "full" else []) + cfg
             r = subprocess.run([binp] + fl + ["-"], input=src.encode(), capture_output=True, timeout=120)
@@ -903,6 +936,14 @@ def run(ses, rep):
             rep.add(oid, st, f"{what}; native: {v}")
         else:
             rep.add(oid, "inconclusive", f"{what}: the semantic battery shows no token-level change on the native build")
+
+
+def fallback(rep):
+    """kernels undecided: the semantic battery (every corpus program x configuration, also with ranges) is run; only a reproduced
+    change of the significant tokens is reported"""
+    for v, rec in semantic_battery("full")[:3]:
+        st = rep.violation({"obligation": "battery-after-undecided-kernel", "program": rec["program"]}, {"what": "kernel undecided; semantic battery", "observed": v, **rec})
+        rep.add("battery/" + rec["program"], st, v)
 
 
 def replay(path):
